@@ -20,10 +20,10 @@ FUNCTIONS = [
     "jsonargparse._formatters.get_env_var",
 ]
 
-KINDS = ["flat", "nested", "list", "dict"]
-KEY = {"flat": "a", "nested": "g.b", "list": "l", "dict": "d"}
-ENV = {"flat": "APP_A", "nested": "APP_G__B", "list": "APP_L", "dict": "APP_D"}
-DEFAULT = {"flat": 1, "nested": 2, "list": [0], "dict": {"z": 0}}
+KINDS = ["flat", "nested", "list", "dict", "str"]
+KEY = {"flat": "a", "nested": "g.b", "list": "l", "dict": "d", "str": "s"}
+ENV = {"flat": "APP_A", "nested": "APP_G__B", "list": "APP_L", "dict": "APP_D", "str": "APP_S"}
+DEFAULT = {"flat": 1, "nested": 2, "list": [0], "dict": {"z": 0}, "str": "d0"}
 ARGV_ITEMS = ["cfg1", "opt", "extra", "cfg2"]  # extra = '+' append (list) / item assignment (dict) / second plain option (flat, nested)
 ENV_MODES = ["default_env=True", "default_env=False", "JSONARGPARSE_DEFAULT_ENV"]
 METHODS = ["parse_args", "parse_env", "parse_string", "parse_object"]
@@ -40,6 +40,7 @@ def _parser(default_files, env_mode):
     p.add_argument("--g.b", type=int, default=2)
     p.add_argument("--l", type=List[int], default=[0])
     p.add_argument("--d", type=Dict[str, int], default={"z": 0})
+    p.add_argument("--s", type=str, default="d0")
     return p
 
 
@@ -47,6 +48,8 @@ def _assign(kind, n, append=False, item=None):
     """The (key, python value) a source holding number n assigns."""
     if kind in ("flat", "nested"):
         return KEY[kind], n
+    if kind == "str":
+        return "s", ("" if n == 0 else f"v{n}")  # n == 0: the empty string, a value like any other
     if kind == "list":
         return ("l+" if append else "l"), [n, n + 100]
     if item:
@@ -97,8 +100,9 @@ def _once(kind, bits, env_mode, method, order, ns_val):
         env = {}
         if bits["envcfg"]:
             env["APP_CFG"] = _yaml(kind, 13, append=(kind == "list" and bits.get("envcfg_append", False)))
+        envvar_n = 0 if (kind == "str" and bits.get("envvar_empty")) else 14
         if bits["envvar"]:
-            env[ENV[kind]] = json.dumps(_assign(kind, 14)[1])
+            env[ENV[kind]] = json.dumps(_assign(kind, envvar_n)[1]) if kind != "str" else _assign(kind, envvar_n)[1]
         if env_mode == "JSONARGPARSE_DEFAULT_ENV":
             os.environ["JSONARGPARSE_DEFAULT_ENV"] = "true"
         os.environ.update(env)
@@ -115,7 +119,7 @@ def _once(kind, bits, env_mode, method, order, ns_val):
         if env_active and bits["envcfg"]:
             exp = fold(exp, kind, "append" if (kind == "list" and bits.get("envcfg_append")) else "replace", 13)
         if env_active and bits["envvar"]:
-            exp = fold(exp, kind, "replace", 14)
+            exp = fold(exp, kind, "replace", envvar_n)
         # ---- call
         key = KEY[kind]
         try:
@@ -136,7 +140,7 @@ def _once(kind, bits, env_mode, method, order, ns_val):
                         argv += ["--cfg", _yaml(kind, 18)]
                         exp = fold(exp, kind, "replace", 18)
                     elif it == "opt":
-                        argv += [f"--{key}={json.dumps(_assign(kind, 17)[1])}"]
+                        argv += [f"--{key}={json.dumps(_assign(kind, 17)[1]) if kind != 'str' else _assign(kind, 17)[1]}"]
                         exp = fold(exp, kind, "replace", 17)
                     elif it == "extra":
                         if kind == "list":
@@ -146,7 +150,7 @@ def _once(kind, bits, env_mode, method, order, ns_val):
                             argv += ["--d.k=19"]
                             exp = fold(exp, kind, "item", 19, item="k")
                         else:
-                            argv += [f"--{key}=19"]
+                            argv += [f"--{key}=" + ("v19" if kind == "str" else "19")]
                             exp = fold(exp, kind, "replace", 19)
                 cfg = parser.parse_args(argv, namespace=ns)
             elif method == "parse_env":
@@ -196,6 +200,8 @@ def precedence(kind, method, env_mode, permute=False, shard=None, nshards=1, fix
             bits.setdefault(n, False)
         if kind == "list" and bits["envcfg"]:
             bits["envcfg_append"] = S.flag("envcfg_append")
+        if kind == "str" and bits["envvar"]:
+            bits["envvar_empty"] = S.flag("envvar_empty")
         order = ARGV_ITEMS
         if permute and method == "parse_args":
             order = ORDERS[S.choice("order", len(ORDERS))]
